@@ -11,7 +11,8 @@ import StorageModel.C06.Recreate
   index with back-references, nullable fk constraint → B with cascade delete, nullable fk constraint
   → A itself (`boss`) with cascade delete over transitive referrers and cycles, link collection,
   ref-counted link collection), its plain child store A1 (own unique index, a link collection
-  declared on the child store) and store B (nullable unique index, fk delete restriction, the
+  declared on the child store), its EXTENDED child store A2 (own nullable unique index; creates,
+  updates and deletes through it) and store B (nullable unique index, fk delete restriction, the
   other sides of all links); `Render` is the bucket dump that is diffed against
   `boltz.Traverse` after every transaction.
 -/
@@ -101,7 +102,8 @@ theorem delete_forgets {s s' : State} {id : Id} (hi : C06.Inv s) (h : stepRaw s 
     (∀ b, id ∉ (s'.p.bwd.lookup b).getD []) ∧ (∀ j, id ∉ (s'.p.fwd.lookup j).getD []) ∧
     (∀ b, cnt s'.rc.bwd b id = none) ∧ (∀ j, cnt s'.rc.fwd j id = none) ∧
     s'.g.fwd.lookup id = none ∧ s'.g.bwd.lookup id = none ∧ s'.p.fwd.lookup id = none ∧ s'.p.bwd.lookup id = none ∧
-    s'.rc.fwd.lookup id = none ∧ s'.rc.bwd.lookup id = none ∧ s'.thg.lookup id = none := by
+    s'.rc.fwd.lookup id = none ∧ s'.rc.bwd.lookup id = none ∧ s'.thg.lookup id = none ∧
+    (∀ v, s'.uColour.lookup v ≠ some id) := by
   have h' : deleteATop s id = .ok s' := h
   obtain ⟨h1, h2⟩ := deleteA_absent hi h'
   exact absent_everywhere (inv_deleteA hi h') h1 (by rw [h2]; exact hb)
@@ -112,20 +114,20 @@ theorem delete_forgets {s s' : State} {id : Id} (hi : C06.Inv s) (h : stepRaw s 
 theorem recreate_fresh {s s' s'' : State} {id : Id} {v : ValsA} (hi : C06.Inv s) (hb : s.b.lookup id = none)
     (hd : stepRaw s (.deleteA id) = .ok s') (hc : stepRaw s' (.createA id v) = .ok s'') :
     C06.Inv s'' ∧
-    s''.a.lookup id = some ⟨v.name, v.alias, setOf v.roles, v.owner, v.dep, v.boss, none⟩ ∧
+    s''.a.lookup id = some ⟨v.name, v.alias, setOf v.roles, v.owner, v.dep, v.boss, none, none⟩ ∧
     (∀ w, s''.uName.lookup w = some id ↔ w = v.name) ∧
     (∀ w, s''.uAlias.lookup w = some id ↔ (w ≠ [] ∧ w = v.alias.getD [])) ∧
     (∀ w, s''.uCode.lookup w ≠ some id) ∧
     (∀ w, id ∈ (s''.sRoles.lookup w).getD [] ↔ w ∈ setOf v.roles) ∧
     (∀ b, id ∈ (s''.thg.lookup b).getD [] ↔ (b ≠ [] ∧ v.owner.getD [] = b)) ∧
-    (∀ b, cnt s''.rc.bwd b id = none) ∧ s''.p.fwd.lookup id = none := by
+    (∀ b, cnt s''.rc.bwd b id = none) ∧ s''.p.fwd.lookup id = none ∧ (∀ w, s''.uColour.lookup w ≠ some id) := by
   have hd' : deleteATop s id = .ok s' := hd
   have hc' : createA s' id v = .ok s'' := hc
   have hi' := inv_deleteA hi hd'
   have hi'' := inv_createA hi' hc'
-  have hent : s''.a.lookup id = some ⟨v.name, v.alias, setOf v.roles, v.owner, v.dep, v.boss, none⟩ := by
+  have hent : s''.a.lookup id = some ⟨v.name, v.alias, setOf v.roles, v.owner, v.dep, v.boss, none, none⟩ := by
     rw [(createA_entity hc').1]; simp
-  refine ⟨hi'', hent, ?_, ?_, ?_, ?_, ?_, ?_, ?_⟩
+  refine ⟨hi'', hent, ?_, ?_, ?_, ?_, ?_, ?_, ?_, ?_⟩
   · intro w
     constructor
     · intro h; obtain ⟨_, e, he, rfl⟩ := (hi''.uName w id).1 h; rw [hent] at he; cases he; rfl
@@ -150,6 +152,7 @@ theorem recreate_fresh {s s' s'' : State} {id : Id} {v : ValsA} (hi : C06.Inv s)
   · cases hl : s''.p.fwd.lookup id with
     | none => rfl
     | some l => have := hi''.p.fwdDom id l hl; simp [State.cEx, hent] at this
+  · intro w h; obtain ⟨hne, e, he, hw⟩ := (hi''.uColour w id).1 h; rw [hent] at he; cases he; exact hne hw.symm
 
 end StorageModel.Properties.C06
 
@@ -266,11 +269,26 @@ theorem cycle_witness :
   decide
 
 /-- the hypotheses of `boss_cascade_no_trace` are satisfiable: c reports to a in two ways (directly), b through the cycle -/
-example : Reports exCycle [97] [99] := .direct (e := ⟨[122], none, [[109]], none, none, some [97], none⟩) (by decide) rfl
+example : Reports exCycle [97] [99] := .direct (e := ⟨[122], none, [[109]], none, none, some [97], none, none⟩) (by decide) rfl
 example : Reports exCycle [97] [97] :=
-  .step (k := [98]) (e := ⟨[120], none, [], none, none, some [98], none⟩) (by decide) rfl
-    (.direct (e := ⟨[121], none, [], none, none, some [97], none⟩) (by decide) rfl)
+  .step (k := [98]) (e := ⟨[120], none, [], none, none, some [98], none, none⟩) (by decide) rfl
+    (.direct (e := ⟨[121], none, [], none, none, some [97], none, none⟩) (by decide) rfl)
 example : NoClash [99] (step exCycle (.deleteA [97])).1 := noClash_of_check (by decide)
+
+/-- the extended child store: created through A2 over an existing parent that has A1 data, colour
+    and name changed through A2 (old index entries replaced), deleted through A2: nothing is left -/
+def exExt : State := run [[.createB [112] none], [.createA1 [97] vA [122] [[112]]],
+  [.createA2 [97] ⟨[121], none, [[110]], none, none, [[112]], none⟩ [119]],
+  [.updateA2 [97] ⟨[120], none, [], some [112], none, [], none⟩ [118] (some ⟨true, false, false, true, false, false, false⟩) true]]
+
+theorem extended_child_witness :
+    exExt.uColour.lookup [119] = none ∧ exExt.uColour.lookup [118] = some [97] ∧ exExt.uName.lookup [121] = none ∧
+    exExt.uName.lookup [120] = some [97] ∧ exExt.uCode.lookup [122] = some [97] ∧ exExt.thg.lookup [112] = some [[97]] ∧
+    (exExt.a.lookup [97]).map (·.colour) = some (some [118]) ∧
+    (step exExt (.deleteA [97])).2 = .ok ∧
+    (Render (step exExt (.deleteA [97])).1).filter (fun l => decide (Mentions [97] l)) = [] ∧
+    (step exExt (.updateA2 [98] vA [118] none true)).2 = .err .notFound := by
+  decide
 
 /-- `NoClash` holds in the harness universe: the hypotheses of the no-trace theorems are satisfiable -/
 example : NoClash [97] (step exRc (.deleteA [97])).1 := noClash_of_check (by decide)
@@ -284,4 +302,5 @@ end StorageModel.Properties.C06
 #print axioms StorageModel.Properties.C06.cascade_no_trace
 #print axioms StorageModel.Properties.C06.boss_cascade_no_trace
 #print axioms StorageModel.Properties.C06.tx_removed_no_trace
+#print axioms StorageModel.Properties.C06.recreate_fresh
 #print axioms StorageModel.Properties.C06.recreate_as_if_never_existed
